@@ -34,9 +34,9 @@ for p in props:
             "level_claimed": {
                 "category": "proof",
                 "text": s.get("level_text", "Contracts on the real functions; every VC generated from the working tree's AST is discharged by z3/cvc5 for all array sizes and contents at each structure instance of the stated families."),
-                "design_ref": s.get("design_ref", "DESIGN.md section 6"),
+                "design_ref": s.get("design_ref", "DESIGN.md sections 6 (plan) and 12.3 (as built)"),
             },
-            "level_note": s.get("level_note", "Trusted: library contracts for jax/numpy (pyvc/stubs), reals for floats, jit = identity, pyvc itself; see evidence.assumptions."),
+            "level_note": s.get("level_note", "Trusted: library contracts for jax/numpy/pandas (pyvc/stubs), reals for floats, jit = identity, pyvc itself, natively run dags/pandas; " + "; ".join(a for a in s.get("assumptions", [])[5:]) + ". Not decided: " + "; ".join(s.get("not_decided", [])) + ". Bounded stand-in clauses are listed in the evidence and never counted as proved."),
             "technique": s.get("technique", "contract-based deductive verification: sidecar contracts, VCs generated from the Python AST by symbolic execution, discharged by z3/cvc5; bounded re-runs + native replay only for counterexamples"),
         }
     )
